@@ -9,6 +9,7 @@ next call index n = 0, 1, 2, ...:
   * `plan[n] = <errno int>`  the call is not performed and raises OSError(errno)
                              (a failing file.close() still closes the descriptor),
   * `plan[n] = 'A'`          just before the call another "process" creates the destination,
+  * `plan[n] = 'K'`          the call is not performed and raises KeyboardInterrupt (Ctrl-C arriving there),
   * `kill_at = n`            the process dies (os._exit) immediately before call n.
 
 The log keeps, per call: index, name, the absolute paths involved (descriptors and file objects
@@ -101,6 +102,11 @@ class Spy:
         if act == 'A':
             rec['appear'] = True
             rec['appeared'] = self._appear()
+        elif act == 'K':
+            rec['ok'] = False
+            rec['exc'] = 'KeyboardInterrupt'
+            rec['injected'] = True
+            raise KeyboardInterrupt()
         elif act is not None:
             rec['ok'] = False
             rec['errno'] = act
@@ -141,11 +147,13 @@ class Spy:
                 paths = [spy.fdpath.get(fd, ('?fd', False))[0]]
             if name == 'open':
                 flags = args[1] if len(args) > 1 else kwargs.get('flags', 0)
+                existed = bool(paths) and _os.path.lexists(paths[0])
                 r = spy.counted('os.open', real, args, kwargs, paths)
                 wr = bool(flags & (_os.O_WRONLY | _os.O_RDWR))
                 spy.fdpath[r] = (paths[0], wr)
                 rec = spy.log[-1]
                 rec['flags'] = flags
+                rec['created'] = not existed      # the call made a new directory entry
                 rec['mode'] = args[2] if len(args) > 2 else kwargs.get('mode', 0o777)
                 rec['wr'] = wr
                 if wr and paths[0] != spy.dest and spy.part_path is None:
@@ -203,7 +211,8 @@ class Spy:
     def _event(self, rec):
         if not rec['ok']:
             # a failed call has no effect - except a failing close(), which still closes
-            if rec['call'] == 'file.close' and rec.get('performed') and self.role(rec['paths'][0]) == 'part' and rec.get('wr'):
+            if (rec['call'] == 'file.close' and rec.get('performed') and not rec.get('was_closed')
+                    and self.role(rec['paths'][0]) == 'part' and rec.get('wr')):
                 return 'x'
             return 'n'
         call = rec['call']
@@ -225,7 +234,8 @@ class Spy:
                 creat, excl, trunc = ('w' in m or 'a' in m or 'x' in m), 'x' in m, 'w' in m
                 mode = 0o666
             if r0 == 'dest':
-                return 'T' if trunc else '?'
+                # truncation of the destination, or creation of an (empty) destination in place
+                return 'T' if (trunc or (creat and rec.get('created'))) else '?'
             if not creat or trunc:
                 return '?'
             same = _os.path.dirname(rec['paths'][0]) == _os.path.dirname(self.dest)
@@ -236,6 +246,8 @@ class Spy:
             if not rec.get('wr'):
                 return 'n'
             op = call[5:]
+            if op == 'close' and rec.get('was_closed'):
+                return 'n'      # close() of an already closed file object: no effect
             if r0 == 'part':
                 return {'write': 'w%d' % rec.get('size', 0), 'writelines': 'w%d' % rec.get('size', 0),
                         'flush': 'f', 'close': 'x'}.get(op, '?')
@@ -320,10 +332,18 @@ class FileProxy:
                     args = (list(args[0]),) + args[1:]
                     size = sum(len(x) for x in args[0])
                 still = f.close if name == 'close' else None
+                was_closed = False
+                if name == 'close':
+                    try:
+                        was_closed = bool(f.closed)
+                    except Exception:      # a detached buffer cannot tell
+                        was_closed = False
                 try:
                     return spy.counted('file.' + name, a, args, kwargs, [path], size=size, still=still)
                 finally:
                     spy.log[-1]['wr'] = wr
+                    if was_closed:
+                        spy.log[-1]['was_closed'] = True
             return w
         return a
 
